@@ -393,8 +393,8 @@ def vclass(v):
 # --------------------------------------------------------------------------
 TIERS = {
     "C14": {
-        "quick": dict(runs=1000, hashseeds=8, pool=dict(n_corpus=20, n_random=36, n_big=3, n_bad=12), n_respell=160, n_mutate=40, wall=1500),
-        "thorough": dict(runs=10000, hashseeds=64, pool=dict(n_corpus=60, n_random=150, n_big=10, n_bad=30), n_respell=400, n_mutate=160, wall=3 * 3600, knobs=dict(max_ops=14, max_warmup=100)),
+        "quick": dict(runs=1000, race_runs=800, hashseeds=8, pool=dict(n_corpus=20, n_random=36, n_big=3, n_bad=12), n_respell=160, n_mutate=40, wall=1500),
+        "thorough": dict(runs=10000, race_runs=12000, hashseeds=64, pool=dict(n_corpus=60, n_random=150, n_big=10, n_bad=30), n_respell=400, n_mutate=160, wall=3 * 3600, knobs=dict(max_ops=14, max_warmup=100)),
     },
     "C12": {
         "quick": dict(runs=1200, hashseeds=8, pool=dict(n_corpus=20, n_random=40, n_big=4, n_bad=0), n_respell=12, n_mutate=0, wall=1200),
@@ -521,6 +521,7 @@ class Batch:
         self.HS = hash_seeds(master, self.p["hashseeds"])
         self.pool = None
         self.n_runs = 0
+        self.n_main = 0
         self.knobs = None
         self.stats = Stats(prop)
         self.violating = {}  # run index -> (spec, record, violations)
@@ -568,7 +569,11 @@ class Batch:
         with self.lock:
             s = self._spec_cache.get(i)
         if s is None:
-            s = gen.gen_spec(self.run_seed(i), self.prop, self.pool, self.HS, self.knobs)
+            knobs = self.knobs
+            if i >= self.n_main:
+                # the cheap "race runs": 2-4 clients repeating one kind of warm operation
+                knobs = dict(knobs or {}, race=True, cls="C")
+            s = gen.gen_spec(self.run_seed(i), self.prop, self.pool, self.HS, knobs)
             with self.lock:
                 if len(self._spec_cache) > 256:
                     self._spec_cache.clear()
@@ -576,7 +581,8 @@ class Batch:
         return s
 
     def make_specs(self, n=None, knobs=None):
-        self.n_runs = n if n is not None else self.p["runs"]
+        self.n_main = n if n is not None else self.p["runs"]
+        self.n_runs = self.n_main + int(self.p.get("race_runs", 0) * (self.n_main / TIERS[self.prop][self.tier]["runs"]))
         self.knobs = knobs if knobs is not None else self.p.get("knobs")
 
     def collect_refs(self):
